@@ -1,4 +1,38 @@
-//! `cargo run --release -p <crate> --example run -- <runs>`: run the engine stand-alone.
+//! Stand-alone runner.
+//! `run [runs]`            — `runs` seeded cases (default 20000); exit code 1 if anything was reported
+//! `run replay <file>...`  — re-execute the `case` of replay files (or bare case files) and print the outcome
+#[global_allocator]
+static A: simcore::alloc::CountingAlloc = simcore::alloc::CountingAlloc;
+
 fn main() {
-    println!("engine not implemented yet");
+    let args: Vec<String> = std::env::args().skip(1).collect();
+    if args.first().map(|s| s.as_str()) == Some("replay") {
+        let mut bad = 0;
+        for f in &args[1..] {
+            let text = std::fs::read_to_string(f).expect("read replay file");
+            let v: serde_json::Value = serde_json::from_str(&text).expect("json");
+            let case_v = if v.get("case").is_some() { v["case"].clone() } else { v.clone() };
+            let case: paramsim::Case = serde_json::from_value(case_v).expect("case");
+            let out = simcore::engine::execute_case(&paramsim::ParamSim, &case, v["run_seed"].as_u64().unwrap_or(0));
+            println!("{f}: trace {:016x} harness_error={:?}", out.trace_hash, out.harness_error);
+            for x in &out.violations {
+                println!("  {} — {} (at {})", x.signature(), x.detail, x.at);
+            }
+            if out.violations.is_empty() {
+                println!("  no violation");
+            }
+            if let Some(want) = v["violation"]["signature"].as_str() {
+                if !out.violations.iter().any(|x| x.signature() == want) {
+                    println!("  NOT REPRODUCED: wanted {want}");
+                    bad += 1;
+                }
+            }
+        }
+        std::process::exit(if bad > 0 { 2 } else { 0 });
+    }
+    let runs: u64 = args.first().and_then(|s| s.parse().ok()).unwrap_or(20000);
+    let n = simcore::selftest::run(&paramsim::ParamSim, "C18", runs, simcore::Tier::Quick);
+    if n > 0 {
+        std::process::exit(1);
+    }
 }
